@@ -967,13 +967,13 @@ pub fn e2e_dir() -> String {
     }
 }
 
-fn e2e_scratch() -> String {
+pub fn e2e_scratch() -> String {
     let base = if crate::common::out_dir() == "/verif" { "/verif/target".to_string() } else { crate::common::out_dir() };
     format!("{}/e2e-run/{}", base, std::process::id())
 }
 
 /// Once per OS process: the preload really owns the RandomState keys, clock and pid of a real process.
-fn e2e_seam_check() -> Result<(), String> {
+pub fn e2e_seam_check() -> Result<(), String> {
     static CHECK: std::sync::OnceLock<Result<(), String>> = std::sync::OnceLock::new();
     CHECK
         .get_or_init(|| {
